@@ -80,6 +80,23 @@ def run(ctx):
                 ctx.counterexample('globmatch(%r, %r, %s|REALPATH) is True but the path is not denoted (symlink under `**`?)' % (
                     p, pattern, corr.flag_names(fv)), {'path': p, 'pattern': pattern, 'ppat': pp, 'flags': corr.flag_names(fv), 'tree': spec})
                 break
+        # ... and in the other direction: a symlinked directory that `**` meets (not one reached through another link) is
+        # matched by it, however the path is spelled - with or without the trailing separator
+        segs2 = pp.split(':')[1].split('/')
+        if segs2[-1] in gs_ and pp.endswith(':t') and not c['matchbase']:
+            for x in sorted(lb):
+                fx = os.path.join(T.root, x)
+                parts = x.split('/')
+                if not (os.path.islink(fx) and os.path.isdir(fx)) or any(os.path.islink(os.path.join(T.root, *parts[:k])) for k in range(1, len(parts))):
+                    continue
+                if x not in got or globcommon.hid(x):
+                    continue
+                for spell in (x, x + '/'):
+                    stats['evals'] += 1
+                    if not Gm.globmatch(spell, pattern, flags=fv | Gm.REALPATH, root_dir=T.root):
+                        ctx.counterexample('globmatch(%r, %r, %s|REALPATH) is False but glob returns this symlinked directory: `**` matches the symlinks it meets' % (
+                            spell, pattern, corr.flag_names(fv)), {'path': spell, 'pattern': pattern, 'ppat': pp, 'flags': corr.flag_names(fv), 'tree': spec})
+                        break
 
     saved = ctx.counterexample
     noise = []
